@@ -47,6 +47,7 @@ def main(tier):
     chk.run("R-CLAMP", WN.clamp, cx.cpp, floor=3)
     chk.run("R-ALIGNCHECK", WN.aligncheck, cx.repo, floor=2)
     chk.run("R-ARRAYOK", WN.arrayok, cx.cpp, floor=2)
+    chk.run("R-SELFCONTAIN", VX.selfcontain, cx.repo, floor=3)
     # undefined behaviour (full-width shifts, signed overflow) in the constants and masks of the checked write path
     chk.run("R-CPPRANGE", CRX.cpprange, cx.cpp, ub_only=True, floor=2000)
     chk.run("R-ELEMSIZE", VX.elemsize, cx.repo, cx.schema, cx.sites, clauses=("zero", "huge"), floor=3)
